@@ -25,7 +25,7 @@ import (
 	"verif/harness/internal/refmodel"
 )
 
-var names = []string{"a", "a/b", "b", "a\nb", "x*y", "ab", "_internal/x", ""}
+var names = []string{"a", "a/b", "b", "a\nb", "x*y", "ab", "_internal/x", "", "a/../b", "a/b/", "a//b", "a/../_internal/x"}
 var patterns = []string{"a", "a/b", "b", "a\nb", "x*y", "ab", "_internal/x", "", "*", "a/*", "*b", "a*", "**", "a*b", "a.b", "x\\*y", "_internal/*", "[ab]", "?", "a/*/b", "a*a", "ab*b", "*a*b*"}
 var actions = []string{"get", "info", "put", "activate", "delete"}
 
@@ -133,7 +133,7 @@ func TestC01(t *testing.T) {
 				su := realdb.Super()
 				var setup []string
 				for i, n := 0, 4+rng.IntN(10); i < n; i++ {
-					op := ops.Op{Kind: ops.Put, Name: names[rng.IntN(6)]}
+					op := ops.Op{Kind: ops.Put, Name: append(names[:6:6], names[8:]...)[rng.IntN(10)]}
 					switch rng.IntN(6) {
 					case 0:
 						op.Kind = ops.Act
@@ -288,6 +288,66 @@ func TestC01(t *testing.T) {
 		}(w)
 	}
 	wg.Wait()
-	r.Require("cases", "allowed_calls", "denied_calls", "denied_on_existing", "denied_on_absent")
-	r.Rule("case = (database state reached by 4-13 random superuser operations over a hostile 8-name pool incl. empty, reserved, newline and literal-'*' names; 0-3 random rules over the 5 actions (+unknown ones) and 23 exact/wildcard/regexp-meta patterns); then all 9 operations x all 8 names x versions {0,1,2,9} in random order, at the DB API and through the HTTP handlers. Distinct = (level, operation, authorised?, secret exists?, model outcome class, rule count)")
+	if r.Only < 0 {
+		for i := 0; i < r.N(10, 150); i++ {
+			concurrentDenied(t, r, dir, i)
+		}
+	}
+	r.Require("concurrent_denied_calls", "cases", "allowed_calls", "denied_calls", "denied_on_existing", "denied_on_absent")
+	r.Rule("case = (database state reached by 4-13 random superuser operations over a hostile 12-name pool incl. empty, reserved, newline, literal-'*' and path-like ('a/../b', 'a//b', 'a/b/') names; 0-3 random rules over the 5 actions (+unknown ones) and 23 exact/wildcard/regexp-meta patterns); then all 9 operations x all 8 names x versions {0,1,2,9} in random order, at the DB API and through the HTTP handlers. Distinct = (level, operation, authorised?, secret exists?, model outcome class, rule count)")
+}
+
+// concurrentDenied: while authorised callers are busy, a caller without any matching grant must be
+// refused every single time, and must leave no trace in the stored state.
+func concurrentDenied(t *testing.T, r *evid.Run, dir string, idx int) {
+	r.Eval(1)
+	d, err := realdb.Open(filepath.Join(dir, fmt.Sprintf("conc%d.db", idx)), realdb.DummyKey("c01c"))
+	if err != nil {
+		t.Error(err)
+		return
+	}
+	su := realdb.Super()
+	d.Put(su, "hot", []byte("the-value"))
+	stop := make(chan struct{})
+	var wg sync.WaitGroup
+	for g := 0; g < 6; g++ {
+		wg.Add(1)
+		go func() {
+			defer wg.Done()
+			for {
+				select {
+				case <-stop:
+					return
+				default:
+				}
+				d.Get(su, "hot")
+				d.Info(su, "hot")
+			}
+		}()
+	}
+	nobody := realdb.Caller("nobody@verif", []refmodel.Rule{{Actions: []string{"get", "info", "put", "activate", "delete"}, Patterns: []string{"elsewhere/*"}}})
+	for i := 0; i < 4000; i++ {
+		var res ops.Result
+		switch i % 4 {
+		case 0:
+			res = ops.ApplyReal(d, nobody, ops.Op{Kind: ops.Get, Name: "hot"})
+		case 1:
+			res = ops.ApplyReal(d, nobody, ops.Op{Kind: ops.Info, Name: "hot"})
+		case 2:
+			res = ops.ApplyReal(d, nobody, ops.Op{Kind: ops.Put, Name: "hot", Value: []byte("intruder")})
+		case 3:
+			res = ops.ApplyReal(d, nobody, ops.Op{Kind: ops.GetVer, Name: "hot", Version: 1})
+		}
+		r.Count("concurrent_denied_calls", 1)
+		if res.Class != refmodel.Denied {
+			r.Violation("db-unauthorised-call-succeeded", -1, fmt.Sprintf("concurrent run %d: a caller without a matching grant got %s while authorised callers were active", idx, res), nil)
+			break
+		}
+	}
+	close(stop)
+	wg.Wait()
+	if m, err := realdb.Dump(d); err != nil || len(m.S) != 1 || len(m.S["hot"].Versions) != 1 {
+		r.Violation("db-unauthorised-call-changed-state", -1, fmt.Sprintf("concurrent run %d: refused calls changed the stored state (%v)", idx, err), nil)
+	}
+	r.Distinct("concurrent-denied")
 }
